@@ -40,11 +40,15 @@ def run_case(case):
 def configs(tier):
     out = []
 
-    def add(d, lmin, lmax, version, reb, bnd, D, s, towards=None):
+    def add(d, lmin, lmax, version, reb, bnd, D, s, towards=None, a=None, b=None):
         c = {"d": d, "lmin": lmin, "lmax": lmax, "version": version, "rebalancing": reb, "boundary": bnd, "s": s}
         if towards:
             c["towards"] = towards
+        if a is not None:
+            c["a"], c["b"] = a, b
         out.append((c, D))
+    FAR = dict(a=[1048576.0, -1.0], b=[1048577.0, 3.0])     # a domain far from the origin in one dimension
+    TF = [[1048576.3, 0.2], [1048576.3, 2.2]]
     T2 = [[0.3, 0.3], [0.3, 0.8]]
     T3 = [[0.3, 0.3, 0.3], [0.8, 0.3, 0.6]]
     if tier == "quick":
@@ -65,7 +69,12 @@ def configs(tier):
         add(2, 1, 2, 6, False, False, 5, 1, towards=T2)
         add(3, 1, 2, 6, True, True, 3, 1, towards=T3)
         add(3, 1, 2, 6, False, True, 3, 1, towards=T3)
+        for bnd in (True, False):
+            add(2, 1, 2, 6, True, bnd, 4, 1, towards=TF, **FAR)
     else:
+        for version in (6, 2):
+            for bnd in (True, False):
+                add(2, 1, 2, version, True, bnd, 6, 1, towards=TF, **FAR)
         for version in (6, 7, 8, 2, 3):
             for reb in (False, True):
                 for bnd in (True, False):
@@ -91,7 +100,7 @@ def main(ctx):
     for config, D in configs(ctx.tier):
         tag = "d%d_l%d%d_v%d_reb%d_bnd%d_D%d_s%d%s" % (config["d"], config["lmin"], config["lmax"], config["version"],
                                                       config["rebalancing"], config["boundary"], D, config["s"],
-                                                      "_towards" if config.get("towards") else "")
+                                                      ("_towards" if config.get("towards") else "") + ("_far" if config.get("a") else ""))
         st = core.bfs(ctx, config, D, tag=tag)
         ctx.bounds[tag] = st
     return ctx.finish(
